@@ -239,8 +239,10 @@ func renderJSON(root *jn, r *hv.Rng) string {
 
 // ---- JSON text -> Coq jvalue ---------------------------------------------------------------
 
-// unescT undoes escT: the model's strings are the values json/structure.go yields
-// with the context mode of the case (template escapes resolved).
+// unescT undoes escT. NOT applied to the JSON value handed to the Coq model any more
+// (coqJValue is called with tmpl=false): which property names are templates depends on how
+// the schema reads them — keys of object VALUES are, attribute names / block types / labels
+// are not — so the un-escaping is done by the checker at evaluation (json_sem_t).
 func unescT(s string, tmpl bool) string {
 	if !tmpl {
 		return s
